@@ -14,6 +14,7 @@ pub fn gens() -> Vec<Gen> {
     vec![
         Gen { name: "c11.issuer_sequences", prop: "C11", tags: &["issuer", "issue_sd_jwt", "reset", "holder_key", "cnf", "src/issuer.rs"], cases: cases_issuer, check: check_issuer },
         Gen { name: "c11.issuer_deep_step", prop: "C11", tags: &["deep", "depth", "nesting", "error path", "poison"], cases: cases_issuer_deep, check: check_issuer },
+        Gen { name: "c11.holder_sign_alg", prop: "C11", tags: &["sign_alg", "alg", "key_binding", "create_key_binding_jwt"], cases: cases_holder_sign_alg, check: check_holder },
         Gen { name: "c11.holder_repeat_args", prop: "C11", tags: &["nonce", "repeat", "key_binding", "kb", "create_presentation"], cases: cases_holder_repeat, check: check_holder },
         Gen { name: "c11.holder_sequences", prop: "C11", tags: &["holder", "create_presentation", "kb_jwt", "sd_jwt_json", "src/holder.rs"], cases: cases_holder, check: check_holder },
         Gen { name: "c11.issuer_long_random", prop: "C11", tags: &["random"], cases: cases_issuer_random, check: check_issuer },
@@ -273,6 +274,43 @@ fn cases_holder_repeat(_rng: &mut Rng, sink: &mut dyn FnMut(J) -> bool) {
     }
 }
 
+/// The key-binding sign_alg argument varies per call (None, ES256, EdDSA with the matching key,
+/// an unknown name, None with an Ed25519 key): call k must equal a fresh holder's result.
+fn cases_holder_sign_alg(_rng: &mut Rng, sink: &mut dyn FnMut(J) -> bool) {
+    let s1 = json!({"name": true, "addr": {"city": true}});
+    let pool = vec![
+        json!({"selection": s1, "sign_alg": null, "key": "es256"}),
+        json!({"selection": {}, "sign_alg": "ES256", "key": "es256"}),
+        json!({"selection": s1, "sign_alg": "EdDSA", "key": "eddsa"}),
+        json!({"selection": {"sub": true}, "sign_alg": "XX999", "key": "es256", "fails": true}),
+        json!({"selection": s1, "sign_alg": null, "key": "eddsa", "fails": true}),
+        json!({"selection": s1, "sign_alg": "ES256", "key": "eddsa", "fails": true}),
+        json!({"selection": {"sub": true}, "kb": false}),
+    ];
+    let mut seqs: Vec<Vec<J>> = Vec::new();
+    for a in &pool {
+        for b in &pool {
+            seqs.push(vec![a.clone(), b.clone()]);
+        }
+    }
+    for a in &pool {
+        for b in &pool {
+            for c in &pool {
+                seqs.push(vec![a.clone(), b.clone(), c.clone()]);
+            }
+        }
+    }
+    let mut n = 0usize;
+    for seq in seqs {
+        n += 1;
+        let mut c = holder_cfg(n);
+        c["calls"] = J::Array(seq);
+        if !sink(c) {
+            return;
+        }
+    }
+}
+
 fn cases_holder(_rng: &mut Rng, sink: &mut dyn FnMut(J) -> bool) {
     let calls = holder_calls();
     let mut n = 0usize;
@@ -323,6 +361,12 @@ fn do_call(h: &mut sd_jwt_rs::SDJWTHolder, call: &J, k: usize, holder: &str) -> 
     let nonce_id = call["nonce_id"].as_u64().map(|v| v as usize).unwrap_or(k);
     let aud_id = call["aud_id"].as_u64().map(|v| v as usize).unwrap_or(nonce_id);
     let kb = Kb { nonce: format!("nonce-{nonce_id}"), aud: format!("https://verifier-{aud_id}.example"), holder: holder.to_string() };
+    if call.get("sign_alg").is_some() {
+        // explicit signing key and sign_alg argument (None / Some(name)); judged against a fresh holder only
+        let key = call["key"].as_str().unwrap_or(holder);
+        let alg = call["sign_alg"].as_str().map(String::from);
+        return (sut::present_raw(h, &sel, Some(kb.nonce.clone()), Some(kb.aud.clone()), Some(keys::holder_enc(key)), alg), None);
+    }
     match &call["kb"] {
         J::Bool(true) => (sut::present(h, &sel, Some(&kb)), Some(kb)),
         J::Bool(false) => (sut::present(h, &sel, None), None),
@@ -363,6 +407,14 @@ fn check_holder(case: &J) -> Verdict {
         let (Some(rp), Some(fp)) = (Parts::parse(&rs, format), Parts::parse(&fs, format)) else {
             return fail(format!("{what}: result does not parse as {format}: {}", short(&rs, 200)), "well-formed presentation");
         };
+        // the KB-JWT's protected header (alg, typ) depends on this call's arguments only
+        let kb_header = |p: &Parts| -> Option<J> { p.kb.as_ref().and_then(|k| k.split('.').next().map(String::from)).and_then(|h| crate::util::b64d(&h)).and_then(|b| serde_json::from_slice(&b).ok()) };
+        if kb_header(&rp) != kb_header(&fp) {
+            return fail(
+                format!("{what} after {k} earlier call(s): KB-JWT header {}", kb_header(&rp).map(|h| jstr(&h)).unwrap_or("absent".into())),
+                format!("as from a fresh holder: {}", kb_header(&fp).map(|h| jstr(&h)).unwrap_or("absent".into())),
+            );
+        }
         if rp.jwt != fp.jwt || rp.disclosures != fp.disclosures || rp.kb.is_some() != fp.kb.is_some() {
             return fail(
                 format!("{what} after {k} earlier call(s): {} disclosures, KB-JWT {}", rp.disclosures.len(), if rp.kb.is_some() { "present" } else { "absent" }),
@@ -385,7 +437,7 @@ fn check_holder(case: &J) -> Verdict {
             if let Out::Err(e) = sut::verify(&rs, &cfg.alg, Some(kb), format) {
                 return fail(format!("{what}: verifier rejects the presentation: {e}"), "accepted");
             }
-        } else if rp.kb.is_some() != kb.is_some() {
+        } else if call.get("sign_alg").is_none() && rp.kb.is_some() != kb.is_some() {
             return fail(format!("{what}: KB-JWT {}", if rp.kb.is_some() { "present although not requested" } else { "absent although requested" }), "KB-JWT iff requested");
         }
     }
